@@ -63,7 +63,8 @@ char const *const all_entries[] = {
     "array<int,3>", "array<int,1>", "array<string,2>",
     // slice 2
     "record<a,b,c>", "record<a,b>x<b,a>", "enum_array<e3,int>", "enum_array<e1,int>", "bitfield<e3,u8>",
-    "bitfield<e5,u32>", "bitfield<e9,u8>", "bitfield<e8,u8>", "bitfield<e17,u16>",
+    "bitfield<e5,u32>", "bitfield<e9,u8>", "bitfield<e8,u8>", "bitfield<e17,u16>", "bitfield<e11:int,u8>",
+    "bitfield<e19:int,u16>", "bitfield<e9:u64,u8>", "bitfield<e5:i8,u64>",
     // slice 3
     "vector<int,1>", "vector<int,2>", "vector<int,3>", "vector<int,2>/view", "vector<int,2>/mixed-storage", "dim<int,1>",
     "dim<int,2>", "dim<int,3>", "dim<int,2>/mixed-storage", "matrix<int,2,2>", "matrix<int,1,3>", "matrix<int,3,1>",
@@ -1894,6 +1895,11 @@ VF17_ENUM(e5, unsigned, 5)
 VF17_ENUM(e8, std::uint8_t, 8)
 VF17_ENUM(e9, std::uint8_t, 9)
 VF17_ENUM(e17, short, 17)
+// enumerator type and storage word of different widths (the padding of the last word is a property of the WORD)
+VF17_ENUM(e11i, int, 11)
+VF17_ENUM(e19i, int, 19)
+VF17_ENUM(e9q, unsigned long long, 9)
+VF17_ENUM(e5c, signed char, 5)
 
 // ---- record
 FCPPT_RECORD_MAKE_LABEL(la);
@@ -2114,6 +2120,10 @@ void slice2_bitfield()
   bitfield_family<e9, 9, std::uint8_t>("bitfield<e9,u8>", vf::tier<std::size_t>(64, 512));
   bitfield_family<e8, 8, std::uint8_t>("bitfield<e8,u8>", vf::tier<std::size_t>(64, 256));
   bitfield_family<e17, 17, std::uint16_t>("bitfield<e17,u16>", vf::tier<std::size_t>(48, 200));
+  bitfield_family<e11i, 11, std::uint8_t>("bitfield<e11:int,u8>", vf::tier<std::size_t>(48, 300));
+  bitfield_family<e19i, 19, std::uint16_t>("bitfield<e19:int,u16>", vf::tier<std::size_t>(40, 200));
+  bitfield_family<e9q, 9, std::uint8_t>("bitfield<e9:u64,u8>", vf::tier<std::size_t>(48, 512));
+  bitfield_family<e5c, 5, std::uint64_t>("bitfield<e5:i8,u64>", 32);
 }
 } // namespace
 void vf_slice_2()
